@@ -33,6 +33,8 @@ struct Budget {
     fails: u8,
     retract_checks: u8,
     connects: u8,
+    /// steps of 330 s of virtual time
+    advances: u8,
 }
 
 pub const N_SCENARIOS: u8 = 16;
@@ -52,6 +54,7 @@ fn scenario(k: u8) -> Scenario {
         fails,
         retract_checks,
         connects,
+        advances: 0,
     };
     match k % N_SCENARIOS {
         0 => Scenario {
@@ -132,11 +135,14 @@ fn scenario(k: u8) -> Scenario {
             budget: b(2, 0, 0, 0, 0),
         },
         11 => Scenario {
-            name: "2-cpu worker with a 1000 s time limit and a 4-cpu worker, two tasks with min-time 300 s and two plain 1-cpu tasks; one loss, late worker",
-            prefill: Some((0, 1)),
-            workers: &[6, 0],
+            name: "2-cpu worker with a 1000 s time limit, prefill (0,2), four tasks with min-time 300 s and one plain 1-cpu task; three time steps of 330 s, two retract checks, one loss",
+            prefill: Some((0, 2)),
+            workers: &[6],
             late_worker: 6,
-            budget: b(1, 0, 0, 0, 1),
+            budget: Budget {
+                advances: 3,
+                ..b(1, 0, 0, 2, 0)
+            },
         },
         12 => Scenario {
             name: "one 2-cpu worker, graph with a repeated dependency and a diamond (t0 -> t1, t0 -> t2, {t1,t2,t1} -> t3), never-restart tasks; one loss, one failure, late worker",
@@ -272,9 +278,9 @@ async fn setup(k: u8) -> (Sim, Budget) {
             submit(&mut sim, r).await;
         }
         11 => {
-            let r = palette::array_submit(None, palette::int_array(&[0, 1]), None, palette::request(10), d(0, 0), None, "mintime");
+            let r = palette::array_submit(None, palette::int_array(&[0, 1, 2, 3]), None, palette::request(10), d(0, 0), None, "mintime");
             submit(&mut sim, r).await;
-            let r = palette::array_submit(None, palette::int_array(&[0, 1]), None, palette::request(0), d(0, 0), None, "plain");
+            let r = palette::array_submit(None, palette::int_array(&[0]), None, palette::request(0), d(0, 0), None, "plain");
             submit(&mut sim, r).await;
         }
         12 => {
@@ -311,6 +317,29 @@ async fn setup(k: u8) -> (Sim, Budget) {
             submit(&mut sim, r).await;
             let r = palette::array_submit(None, palette::int_array(&[0, 1]), None, palette::request(0), d(0, 0), None, "sn");
             submit(&mut sim, r).await;
+        }
+    }
+    if k % N_SCENARIOS == 11 {
+        // warm-up: the exploration starts with the tasks placed (two running, two in the
+        // backlog), so that the time steps and the periodic check are within a small depth
+        for _ in 0..30 {
+            let a = {
+                let w = &sim.world;
+                if let Some(ws) = w.workers.values().find(|ws| !ws.q.is_empty()) {
+                    Some(Action::ToWorker { worker: ws.id })
+                } else if let Some(ws) = w.workers.values().find(|ws| !ws.r.is_empty()) {
+                    Some(Action::ToServer { worker: ws.id })
+                } else if w.server.scheduling_requested() {
+                    Some(Action::Sched)
+                } else {
+                    None
+                }
+            };
+            let Some(a) = a else { break };
+            let step = sim.world.step_no() + 1;
+            sim.world.set_step(step);
+            let d = sim.apply(a).await;
+            sim.obs.borrow_mut().trace.push(format!("{step}: [warm-up] {d}"));
         }
     }
     (sim, sc.budget)
@@ -405,6 +434,9 @@ fn concrete_actions(sim: &Sim, b: &Budget, late_worker: usize) -> Vec<Action> {
             palette: late_worker,
         });
     }
+    if b.advances > 0 {
+        out.push(Action::Advance { secs: 330 });
+    }
     out
 }
 
@@ -415,6 +447,7 @@ fn spend(b: &mut Budget, a: &Action) {
         Action::EndTask { finish: false, .. } => b.fails -= 1,
         Action::RetractCheck { .. } => b.retract_checks -= 1,
         Action::Connect { .. } => b.connects -= 1,
+        Action::Advance { .. } => b.advances -= 1,
         _ => {}
     }
 }
@@ -423,7 +456,7 @@ fn state_hash(sim: &Sim, b: &Budget) -> u64 {
     use std::fmt::Write;
     let mut s = String::with_capacity(4096);
     let world = &sim.world;
-    let _ = write!(s, "{:?}|{:?}|", b, world.snapshot());
+    let _ = write!(s, "{:?}|t{}|{:?}|", b, world.now_ms(), world.snapshot());
     for ws in world.workers.values() {
         let _ = write!(s, "w{}:{}:{:?}|", ws.id, ws.alive, ws.sim.snapshot());
         for m in &ws.q {
@@ -625,6 +658,8 @@ pub struct EnumStats {
     pub exhaustive_to_depth: bool,
     pub max_fanout: usize,
     pub sample_path: Vec<String>,
+    /// classes observed on the explored paths (same labels as in the class histogram)
+    pub classes: std::collections::BTreeSet<String>,
 }
 
 pub struct EnumResult {
@@ -689,6 +724,11 @@ fn explore_one(
         });
         st.executions += 1;
         st.pruned_revisits += pruned;
+        for c in &run.outcome.classes {
+            if !st.classes.contains(c) {
+                st.classes.insert(c.clone());
+            }
+        }
         st.transitions += taken.len().saturating_sub(plen.saturating_sub(1)) as u64;
         st.max_fanout = st.max_fanout.max(run.fanout.iter().copied().max().unwrap_or(0));
         if st.sample_path.is_empty() && taken.len() >= depth.min(8) {
